@@ -5,7 +5,7 @@
     [counter_mod] (regenerated from the source) --[apply_all]--> [state].
     [order]/[order'] are the two HashMap iteration orders (of the file's cluster
     table and of [Config.clusters]); every theorem holds for all of them.  Since
-    the fixes b1489f3/58bb4e6/88dc093 in /repo the loader itself rejects duplicate
+    the fixes b1489f3/58bb4e6/e9031f0 in /repo the loader itself rejects duplicate
     frontends and backends and a TCP/UDP address claimed by two clusters, so no
     side condition on the declaration remains. *)
 From Coq Require Import List ZArith NArith String Bool Lia Permutation.
@@ -29,7 +29,7 @@ Theorem frontends_have_listeners : forall d order cf,
 Proof. exact load_in_fronts_on_listeners. Qed.
 
 (** a TCP/UDP address of an accepted file carries the frontends of one cluster only (since the
-    fix 88dc093 in /repo the loader refuses a second cluster on such an address) ... *)
+    fix e9031f0 in /repo the loader refuses a second cluster on such an address) ... *)
 Theorem stream_address_one_cluster : forall d order cf,
   Permutation order (d_clusters d) -> load_in d order = Ok cf ->
   forall a b, In a (flat_map cc_tfronts (cf_clusters cf)) -> In b (flat_map cc_tfronts (cf_clusters cf)) ->
@@ -37,7 +37,7 @@ Theorem stream_address_one_cluster : forall d order cf,
 Proof. intros d order cf P H. exact (proj2 (proj2 (proj2 (proj2 (proj2 (proj2 (load_in_KeysOk _ _ _ P H))))))). Qed.
 
 (** ... so the guard of [ConfigState::add_tcp_frontend] / [add_udp_frontend] (an address bound to
-    another cluster, 6f92064 in /repo) cannot fire on a request the file generates, whatever
+    another cluster, 73f75ec in /repo) cannot fire on a request the file generates, whatever
     part of the file's frontends the state already holds *)
 Theorem state_guard_silent : forall d order cf,
   Permutation order (d_clusters d) -> load_in d order = Ok cf ->
